@@ -172,24 +172,21 @@ def r15_4(ctx, repo):
     cls = 'PopulationPredictiveModel'
     fn = repo.method(cls, 'sample')
     construct = cls + '.sample'
-    # walk only the table-building tail (after `if return_df is False`)
-    tail = []
-    seen = False
-    for s in fn.body:
-        if seen:
-            tail.append(s)
-        if isinstance(s, ast.If) and 'return_df' in U(s.test):
-            seen = True
-    env = {'n_outputs': N_O, 'n_times': N_T, 'n_samples': N_S,
-           'times': Arr([Ax(N_T)]),
-           'measurements': Arr([Ax(N_O), Ax(N_T), Ax(N_S)]),
-           'covariates': None, 'include_regimen': False}
+    # the whole method is walked with the documented input shapes; locals
+    # (counts, containers) are derived from their definitions
+    env = {'times': Arr([Ax(N_T)]), 'n_samples': N_S,
+           'covariates': None, 'include_regimen': False, 'return_df': True,
+           'seed': Opaque('seed')}
 
     class L(ShapeLifter):
         def _call(self, n, env, fn, depth, owner):
             f = U(n.func)
             if f == 'self._predictive_model.get_output_names':
                 return Arr([Ax(N_O)], is_list=True)
+            if f == 'self._predictive_model.get_n_outputs':
+                return N_O
+            if f == 'np.sort' and n.args:
+                return self.ev(n.args[0], env, fn, depth, owner)
             if f == 'np.arange':
                 return Arr([Ax(N_S)])
             if f == 'pd.DataFrame' and n.args and isinstance(
@@ -202,10 +199,13 @@ def r15_4(ctx, repo):
                 return TOP
             return super()._call(n, env, fn, depth, owner)
     lf = L(repo, cls, flags={'covariates is None': True,
-                             'include_regimen': False})
+                             'include_regimen': False,
+                             'return_df is False': False,
+                             'seed is None': False,
+                             'not n_samples': False})
     lf.tables = []
     try:
-        lf._block(tail, env, fn, 0, cls)
+        lf._block(fn.body, env, fn, 0, cls)
     except Exception as e:
         ctx.error(rule, '%s: %s' % (construct, e))
     _emit_events(ctx, rule, repo, cls, fn, lf, construct)
